@@ -80,6 +80,11 @@ CHECKS = {
     text="Exhaustive at small bounds: every chunking of a 5-6 byte position-tagged stream into source reads, caller buffers 1..3(4), 1-3 sniffing sessions of arbitrary peek depth; every fragmentation into <=3 WebSocket messages (text/binary, empty, control in between), both EOF styles, writes of 0..2 bytes; every sequence of 3 writes x limiter outcome x flush timing on the write queue. TLC checks the byte-stream invariant on the models and validates every recorded Read/Write of the real adapters.",
     note="Sources return io.EOF separately from data. MatchHTTP/MatchAny themselves are not driven: the sniffing sessions model what any matcher can do to the reader (read some prefix).",
     ref="4.7, 5/C17"),
+ "C19": dict(
+    level="model_checking", technique="TLA+ spec PeerQueue.tla model-checked with TLC and every edge of its state graph forced onto the real cluster.Peer through verif.At gates, validated by TLC; Frames.tla contracts (Split, drain loop, id order/uniqueness/decoding, codec round trip) evaluated by TLC on events recorded from the real functions",
+    text="(a) model_checking: senders x flusher interleavings of Peer.Send / processSendQueue at gate granularity; every edge executed on the real peer with a recording gossip sender; what reached the transport after each step must be the model's (once, in order). (b)-(d) exploration: all frames of <=3(4) messages with sizes around the bound through the real Frame.Split; the real processSendQueue with 4-11 MiB messages; ids over 4 ssids x 6 times (decode, order, uniqueness incl. concurrent creation); message/frame codecs on boundary classes.",
+    note="The 10 MiB bound is exercised with real large messages only in the drain cases; schedules use small messages. Peer activity (30 s) is not advanced.",
+    ref="4.7, 4.8, 5/C19"),
 }
 
 NOT_YET = "check not built yet in this session (planned, see DESIGN.md section 5); not claimed until its machinery exists"
